@@ -26,7 +26,10 @@ use super::traits::InnerReaderTrait;
 ///
 /// According to benchmarking on compression of representative data, 4MB seems
 /// to be a good choice
+#[cfg(not(feature = "verif"))]
 const UNCOMPRESSED_DATA_SIZE: u32 = 4 * 1024 * 1024;
+#[cfg(feature = "verif")]
+const UNCOMPRESSED_DATA_SIZE: u32 = crate::verif::UNCOMPRESSED_DATA_SIZE;
 
 /// A bigger value means a better compression ratio, but a slower compression
 ///
@@ -822,7 +825,10 @@ impl<'a, R: 'a + Read> LayerFailSafeReader<'a, R> for CompressionLayerFailSafeRe
     }
 }
 
+#[cfg(not(feature = "verif"))]
 const FAIL_SAFE_BUFFER_SIZE: usize = 4096;
+#[cfg(feature = "verif")]
+const FAIL_SAFE_BUFFER_SIZE: usize = crate::verif::FAIL_SAFE_BUFFER_SIZE;
 
 impl<'a, R: 'a + Read> Read for CompressionLayerFailSafeReader<'a, R> {
     /// This `read` is expected to end by failing
